@@ -201,6 +201,10 @@ func (e *svcEnv) do(ctx context.Context, op svcOp) string {
 func (e *svcEnv) memory() string {
 	var parts []string
 	for id, m := range e.s.crew.Machines {
+		if m == nil {
+			parts = append(parts, fmt.Sprintf("%q:<nil machine>", id))
+			continue
+		}
 		spec := ""
 		if m.SpecSource != nil {
 			spec = m.SpecSource.Name
@@ -448,9 +452,9 @@ func C16(c *vh.Ctx) {
 		return
 	}
 	maxLen := c.Pick(4, 5)
-	alphabet := []svcOp{{K: "add", Id: "m1"}, {K: "add", Id: "m2"}, {K: "add", Id: ""}, {K: "rem", Id: "m1"}, {K: "inc", Id: "m1"}, {K: "bcast"}, {K: "poison", Id: "m1"}, {K: "half"}, {K: "down"}, {K: "up"}, {K: "failnext"}, {K: "failcommit"}}
+	alphabet := []svcOp{{K: "add", Id: "m1"}, {K: "add", Id: "m2"}, {K: "add", Id: ""}, {K: "rem", Id: "m1"}, {K: "rem", Id: "ghost"}, {K: "inc", Id: "m1"}, {K: "bcast"}, {K: "poison", Id: "m1"}, {K: "half"}, {K: "down"}, {K: "up"}, {K: "failnext"}, {K: "failcommit"}}
 	c.Bound("fault_sequence_max", maxLen)
-	c.Rule("(sequential fault sequences) every operation sequence up to the bound over {add m1, add m2, add \"\", remove m1, process->m1, process broadcast, process a message that makes m1's bindings unserialisable, a broadcast that only some machines of the batch survive (the others end with a value that cannot be stored), store stops working, store works again, the next write transaction fails before it starts, the next write transaction fails at commit} on a real Service over a real bolt file (tmpfs); after every operation the in-memory crew must equal the stored crew (read back through a second handle while the store is down), and an operation that failed must not have changed the crew. (schedules) 2-3 client threads issuing process / add / remove / read-crew with yield points inside the machine's action and at the shimmed crew lock, store healthy or failing, every schedule within the deviation bound; the per-operation results and the final (memory, store) must equal those of some sequential order of the operations (the service itself, run sequentially, is the reference), and memory must equal the store. states = sequences + scenarios, transitions = operations + scheduler steps.")
+	c.Rule("(sequential fault sequences) every operation sequence up to the bound over {add m1, add m2, add \"\", remove m1, remove a machine that does not exist, process->m1, process broadcast, process a message that makes m1's bindings unserialisable, a broadcast that only some machines of the batch survive (the others end with a value that cannot be stored), store stops working, store works again, the next write transaction fails before it starts, the next write transaction fails at commit} on a real Service over a real bolt file (tmpfs); after every operation the in-memory crew must equal the stored crew (read back through a second handle while the store is down), and an operation that failed must not have changed the crew. (schedules) 2-3 client threads issuing process / add / remove / read-crew with yield points inside the machine's action and at the shimmed crew lock, store healthy or failing, every schedule within the deviation bound; the per-operation results and the final (memory, store) must equal those of some sequential order of the operations (the service itself, run sequentially, is the reference), and memory must equal the store. states = sequences + scenarios, transitions = operations + scheduler steps.")
 	var idx uint64
 	var rec func(cur []svcOp)
 	rec = func(cur []svcOp) {
